@@ -114,16 +114,14 @@ def check(ctx):
                         continue
                     stack.extend(ast.iter_child_nodes(x))
         return None
-    for qual in ('MembersType.decode_content', 'ArrayType.decode_content', 'ExplicitTag.decode_content', 'PrimitiveOrConstructedType.decode_constructed_contents'):
-        f = model.func(BER, qual)
-        params = flow.param_names(f)
-        if len(params) < 4:
-            raise AnalysisError('%s: expected (self, data, offset, length)' % Model.qual(f))
-        L = params[3]
-        ps = sem.paths(f)
+    def length_handling(f, L, depth=0):
+        """-> (verdict 'ok'|'undecided'|'bad', why, number of paths): the function distinguishes `L is None` before using L arithmetically
+        and its indefinite-form returns follow an end-of-contents search; a function that only hands L to a helper is decided there."""
+        cls_ = getattr(f, '_cls', None)
+        res = sem.class_resolver(cls_) if cls_ is not None else sem.module_resolver(f._mod)
+        ps = sem.paths(f, resolver=res)     # a helper that computes the end offset is looked into
         if ps is None:
-            ctx.instance('C04.R2', '%s handles length None' % Model.qual(f), 'undecided', 'too many paths', nontrivial=False, node=f, file=BER)
-            continue
+            return 'undecided', 'too many paths', 0
         ps = sem.with_loop_bodies(ps)
         none_lit = '%s is None' % L
         bad = None
@@ -142,15 +140,44 @@ def check(ctx):
                         bad = hit
                         break
             if is_none and p.outcome[0] == 'return':
-                if not (p.calls('detect_end_of_contents_tag') or p.calls('is_end_of_data') or p.calls('decode_members')):
+                if not (p.calls('detect_end_of_contents_tag') or p.calls('is_end_of_data') or any('decode_' in (sem.callee_name(n_) or '') and 'members' in (sem.callee_name(n_) or '') for _t, n_ in p.calls())):
                     ends_ok = False
             if bad is not None:
                 break
-        ok = bad is None and has_none and ends_ok
-        ctx.instance('C04.R2', '%s handles length None before arithmetic and ends on end-of-contents [%d paths]' % (Model.qual(f), len(ps)), 'ok' if ok else 'VIOLATION', node=f, file=BER)
+        if bad is None and not has_none and depth < 2:
+            # the length is only handed on: decided in the callee that receives it
+            for n in walk_no_nested(f):
+                if isinstance(n, ast.Call) and any(isinstance(a_, ast.Name) and a_.id == L for a_ in n.args):
+                    g = res(n)
+                    if g is None or g is f:
+                        continue
+                    gp = [a_.arg for a_ in g.args.args]
+                    if gp and gp[0] in ('self', 'cls') and isinstance(n.func, ast.Attribute):
+                        gp = gp[1:]
+                    for pn, a_ in zip(gp, n.args):
+                        if isinstance(a_, ast.Name) and a_.id == L:
+                            v_, why_, np_ = length_handling(g, pn, depth + 1)
+                            return v_, ('in %s: %s' % (g.name, why_)) if why_ else 'decided in %s' % g.name, np_
+        if bad is not None:
+            return 'bad', 'uses `%s` arithmetically (%s) on a path that has not established `%s is not None`' % (L, ast.unparse(bad), L), len(ps)
+        if not has_none:
+            return 'bad', 'never distinguishes `%s is None`' % L, len(ps)
+        if not ends_ok:
+            return 'bad', 'a path for the indefinite form returns without looking for the end-of-contents octets', len(ps)
+        return 'ok', '', len(ps)
+
+    for qual in ('MembersType.decode_content', 'ArrayType.decode_content', 'ExplicitTag.decode_content', 'PrimitiveOrConstructedType.decode_constructed_contents'):
+        f = model.func(BER, qual)
+        params = flow.param_names(f)
+        if len(params) < 4:
+            raise AnalysisError('%s: expected (self, data, offset, length)' % Model.qual(f))
+        verdict, why, np_ = length_handling(f, params[3])
+        if verdict == 'undecided':
+            ctx.instance('C04.R2', '%s handles length None' % Model.qual(f), 'undecided', why, nontrivial=False, node=f, file=BER)
+            continue
+        ok = verdict == 'ok'
+        ctx.instance('C04.R2', '%s handles length None before arithmetic and ends on end-of-contents [%d paths]' % (Model.qual(f), np_), 'ok' if ok else 'VIOLATION', why, node=f, file=BER)
         if not ok:
-            why = ('uses `%s` arithmetically (%s) on a path that has not established `%s is not None`' % (L, ast.unparse(bad), L)) if bad is not None else \
-                  ('never distinguishes `%s is None`' % L if not has_none else 'a path for the indefinite form returns without looking for the end-of-contents octets')
             ctx.violation('C04.R2', BER, f, Model.qual(f), '%s: an indefinite-length encoding of this constructed type raises TypeError / is misparsed' % why, stmt='length None handling')
     f = model.func(BER, 'is_end_of_data')
     ps = sem.paths(f, positional=True)
@@ -197,7 +224,11 @@ def check(ctx):
         ctx.violation('C04.R3', BER, f, Model.qual(f), 'CHOICE dispatch no longer uses the complete identifier octets', stmt='tag dispatch')
 
     # ---- R4
-    f = model.func(BER, 'MembersType.decode_members')
+    f0 = model.func(BER, 'MembersType.decode_members')
+    # the member loop may live in a method decode_members delegates to
+    fam4 = [g_ for g_ in flow.local_reach(model, f0, limit=2) if getattr(g_, '_cls', None) is not None and g_._cls is f0._cls]
+    with_loop = [g_ for g_ in fam4 if any(isinstance(n, ast.While) for n in walk_no_nested(g_))]
+    f = with_loop[0] if with_loop else f0
     ws = [n for n in walk_no_nested(f) if isinstance(n, ast.While)]
     from ..callgraph import CallGraph
     cg = CallGraph(model)
@@ -258,6 +289,10 @@ def check(ctx):
     f = poc.methods['decode_constructed_contents']
     v = sem.View(f)
     segdec = [c for c in sem.method_calls(f, 'decode', v) if isinstance(v.expr(c.func), ast.Attribute) and v.text(v.expr(c.func).value) == 'self.segment']
+    if not segdec:
+        # through a helper that is handed the segment type and calls its decode
+        from .. import defaults
+        segdec = [st_ for st_ in defaults.EncodeSites(poc, method='decode').sites if st_[0] is f and st_[2] == 'self.segment']
     ok = bool(segdec) and bool(sem.method_calls(f, 'decode_constructed_segments', v))
     ctx.instance('C04.R5', 'decode_constructed_contents decodes each segment with the segment type (nested segmentation recurses)', 'ok' if ok else 'VIOLATION', node=f, file=BER)
     if not ok:
